@@ -86,7 +86,7 @@ Proof. exact (gen_legal ops ops_lit_ok). Qed.
 Print Assumptions C12_gen_legal.
 
 (* ---- non-vacuity ---- *)
-Example ex_program : option_map (@List.length obj) (run ops [] (program ops 20260930 8 40)) = Some 37%nat.
+Example ex_program : option_map (@List.length obj) (run ops [] (program ops 20260930 8 40)) = Some 39%nat.
 Proof. vm_compute. reflexivity. Qed.
 (* destroying twice, using after destruction and destroying the base of a live prepared geometry are illegal *)
 Definition find_op (n : string) : nat :=
